@@ -139,4 +139,100 @@ def reportStep (hasUnwrap asIs : Bool) : List (Key × Option GoErr) → Option G
       if rest.any (fun t => t.2.isSome) then some (.internal true [] [] (.panicE 0)) else some (wrapNode hasUnwrap k e)
   | (_, none) :: rest => reportStep hasUnwrap asIs rest
 
+/-! ### panics at any user-code site of a task; the state lock
+
+  One step of a run: several tasks, each running user code at a sequence of sites — the node
+  body, and (any number of times) a critical section on the run's state mutex in which user
+  code runs (`compose.ProcessState`, a state pre/post handler).  `Act` is one thing a task
+  does; an event list `List (Key × Act)` is one interleaving of the tasks of the step (the
+  events of one task appear in program order; critical sections serialise, so a critical
+  section is one event).  The theorems quantify over all event lists, i.e. over all scripts
+  and all interleavings. -/
+
+/-- the source facts about the recover sites (parameters of the step model) -/
+structure ExecFacts where
+  /-- the function every task runs in (`taskManager.executor`) has a deferred `recover` -/
+  recovers : Bool
+  /-- that deferred handler performs nothing that can itself panic before it has recorded the
+      error and queued the task; if it can, the model takes the case in which it does -/
+  handlerClean : Bool
+  /-- the state mutex is released by `defer` in every function of compose/state.go that runs
+      user code under it -/
+  unlockByDefer : Bool
+  deriving Repr, DecidableEq
+
+inductive Act where
+  /-- lock the state, run a user handler (returns, or panics with `info`), unlock -/
+  | useState (panics : Option Nat)
+  /-- the body panics outside any critical section -/
+  | panicBody (info : Nat)
+  /-- the body returns an error -/
+  | fail (e : GoErr)
+  /-- the body returns normally -/
+  | done
+  deriving Repr, DecidableEq
+
+inductive TState where
+  | running
+  /-- the task was handed back to the step loop with this error (`none` = success) -/
+  | finished (r : Option GoErr)
+  /-- waits for the state mutex, which nobody will ever release -/
+  | blocked
+  /-- a panic left the executor: the caller of the run sees a panic / the process dies -/
+  | escaped
+  deriving Repr, DecidableEq
+
+structure StepSt where
+  /-- the state mutex was left locked by a task that is gone -/
+  leaked : Bool
+  tasks : Key → TState
+
+def StepSt.init : StepSt := { leaked := false, tasks := fun _ => .running }
+
+def StepSt.set (st : StepSt) (k : Key) (v : TState) : StepSt :=
+  { st with tasks := fun k' => if k' = k then v else st.tasks k' }
+
+/-- a panic unwinds to the executor's deferred handler -/
+def afterPanic (f : ExecFacts) (info : Nat) : TState :=
+  if f.recovers && f.handlerClean then .finished (some (.panicE info)) else .escaped
+
+/-- one event; events of a task that is no longer running are ignored (whatever the script
+    says would come after a panic or a return is never executed) -/
+def stepEv (f : ExecFacts) (st : StepSt) (ev : Key × Act) : StepSt :=
+  match st.tasks ev.1 with
+  | .running =>
+    match ev.2 with
+    | .useState p =>
+      if st.leaked then st.set ev.1 .blocked else
+      match p with
+      | none => st
+      | some i => { (st.set ev.1 (afterPanic f i)) with leaked := !f.unlockByDefer }
+    | .panicBody i => st.set ev.1 (afterPanic f i)
+    | .fail e => st.set ev.1 (.finished (some e))
+    | .done => st.set ev.1 (.finished none)
+  | _ => st
+
+def runEvents (f : ExecFacts) (evs : List (Key × Act)) : StepSt := evs.foldl (stepEv f) .init
+
+inductive StepResult where
+  /-- the step never completes: the engine waits for a task that is blocked for ever -/
+  | hang
+  /-- a panic escaped the run -/
+  | crash
+  /-- the step completed; `some e` = the run fails with `e` -/
+  | reported (e : Option GoErr)
+  deriving Repr, DecidableEq
+
+/-- the tasks of `order` that finished, in collection order, as `reportStep` takes them -/
+def finishedOf (st : StepSt) (order : List Key) : List (Key × Option GoErr) :=
+  order.filterMap fun k => match st.tasks k with | .finished r => some (k, r) | _ => none
+
+/-- what a step whose tasks are `order` (collection order) comes to after the events `evs` -/
+def stepResult (f : ExecFacts) (hasUnwrap asIs : Bool) (order : List Key) (evs : List (Key × Act)) : StepResult :=
+  let st := runEvents f evs
+  if order.any (fun k => st.tasks k == .blocked) then .hang
+  else if order.any (fun k => st.tasks k == .escaped) then .crash
+  else .reported (reportStep hasUnwrap asIs (finishedOf st order))
+
+
 end EinoV.C13
